@@ -292,3 +292,140 @@ func H_EndBlocker_One_ExactIn_OracleBonus() {
 	}
 	vrf.Assert(env.W.BalOf(alice, usdc).Equal(w.aUsdc), "C04: sender's other balance untouched")
 }
+
+// ---- multi-hop routes ----
+
+const usdt = "uusdt"
+
+var pool2Addr = ammtypes.NewPoolAddress(2)
+
+// a second constant-product pool uatom / uusdt with symbolic reserves
+func addPool2(w *world) {
+	env, ctx := w.env, w.env.Ctx
+	ba, bt := vrf.Int("book2Atom"), vrf.Int("book2Usdt")
+	vrf.Assume(ba.IsPositive())
+	vrf.Assume(bt.IsPositive())
+	pool := ammtypes.Pool{
+		PoolId: 2, Address: pool2Addr.String(), RebalanceTreasury: ammtypes.NewPoolRebalanceTreasury(2).String(),
+		PoolParams:  ammtypes.PoolParams{UseOracle: false, SwapFee: sdkmath.LegacyZeroDec(), FeeDenom: usdt},
+		TotalShares: sdk.Coin{Denom: ammtypes.GetPoolShareDenom(2), Amount: sdkmath.NewInt(1000000)},
+		PoolAssets: []ammtypes.PoolAsset{
+			{Token: sdk.Coin{Denom: atom, Amount: ba}, Weight: sdkmath.NewInt(1)},
+			{Token: sdk.Coin{Denom: usdt, Amount: bt}, Weight: sdkmath.NewInt(1)},
+		},
+		TotalWeight: sdkmath.NewInt(2),
+	}
+	env.Amm.SetPool(ctx, pool)
+	dl, _ := env.Amm.GetDenomLiquidity(ctx, atom)
+	env.Amm.SetDenomLiquidity(ctx, ammtypes.DenomLiquidity{Denom: atom, Liquidity: dl.Liquidity.Add(ba)})
+	env.Amm.SetDenomLiquidity(ctx, ammtypes.DenomLiquidity{Denom: usdt, Liquidity: bt})
+	env.W.SetBal(pool2Addr, atom, ba)
+	env.W.SetBal(pool2Addr, usdt, bt)
+}
+
+// contract of Pool.CalcInAmtGivenOut (the route estimates): an error or any positive amount
+func sumCalcIn(p *ammtypes.Pool, ctx sdk.Context, o ammtypes.OracleKeeper, snap *ammtypes.Pool, tokensOut sdk.Coins, inDenom string, fee sdkmath.LegacyDec, acc ammtypes.AccountedPoolKeeper) (sdk.Coin, sdkmath.LegacyDec, error) {
+	nPrice++
+	tag := string(rune('0' + nPrice))
+	if vrf.Bool("estimateFails" + tag) {
+		return sdk.Coin{}, sdkmath.LegacyZeroDec(), ammtypes.ErrAmountTooLow
+	}
+	in := vrf.Int("estimateIn" + tag)
+	vrf.Assume(in.IsPositive())
+	return sdk.Coin{Denom: inDenom, Amount: in}, sdkmath.LegacyZeroDec(), nil
+}
+
+// One queued exact-out request routed over two pools (uusdc -> uatom -> uusdt), sender and recipient distinct:
+// the sender pays at most the stated maximum of the input denom and nothing else, the recipient receives the stated
+// output and nothing else, or nothing changes.
+//
+//vrf:summary (*github.com/elys-network/elys/x/amm/types.Pool).SwapInAmtGivenOut => sumSwapIn
+//vrf:summary (*github.com/elys-network/elys/x/amm/types.Pool).CalcInAmtGivenOut => sumCalcIn
+//vrf:summary (github.com/elys-network/elys/x/tier/keeper.Keeper).GetMembershipTier => sumTier
+//vrf:cover applied not-applied
+//vrf:bound 1 queued exact-out request, 2-hop route over two constant-product pools, separate recipient; route estimates and execution prices havocked independently (prices may move between estimate and execution); balances, limit and output symbolic
+//vrf:max-steps 60000000
+func H_EndBlocker_One_ExactOut_TwoHops() {
+	w := setup()
+	addPool2(w)
+	env, ctx := w.env, w.env.Ctx
+	aUsdt, bUsdt := vrf.Int("aliceUsdt"), vrf.Int("bobUsdt")
+	vrf.Assume(!aUsdt.IsNegative())
+	vrf.Assume(!bUsdt.IsNegative())
+	env.W.SetBal(alice, usdt, aUsdt)
+	env.W.SetBal(bob, usdt, bUsdt)
+	maxIn, out := vrf.Int("maxIn"), vrf.Int("out")
+	vrf.Assume(maxIn.IsPositive())
+	vrf.Assume(out.IsPositive())
+	m := &ammtypes.MsgSwapExactAmountOut{Sender: alice.String(), Recipient: bob.String(),
+		Routes:   []ammtypes.SwapAmountOutRoute{{PoolId: 1, TokenInDenom: usdc}, {PoolId: 2, TokenInDenom: atom}},
+		TokenOut: sdk.Coin{Denom: usdt, Amount: out}, TokenInMaxAmount: maxIn}
+	env.Amm.SetSwapExactAmountOutRequests(ctx, m, 1)
+	env.Amm.SetLastSwapRequestIndex(ctx, 1)
+
+	env.Amm.EndBlocker(ctx)
+
+	vrf.Assert(len(env.Amm.GetAllSwapExactAmountOutRequests(ctx)) == 0, "C04: no request lingers after EndBlocker")
+	spent := w.aUsdc.Sub(env.W.BalOf(alice, usdc))
+	got := env.W.BalOf(bob, usdt).Sub(bUsdt)
+	vrf.Assert(!spent.IsNegative(), "C04: sender never gains input tokens")
+	vrf.Assert(spent.LTE(maxIn), "C04: sender debited at most TokenInMax (two hops)")
+	if spent.IsZero() {
+		vrf.Cover("not-applied")
+		vrf.Assert(got.IsZero(), "C04: unapplied exact-out request credits nothing")
+	} else {
+		vrf.Cover("applied")
+		vrf.Assert(got.GTE(out), "C04: recipient credited at least TokenOut (two hops)")
+	}
+	// (with the two pools priced independently by the contracts the second hop may cost less than estimated, in which
+	// case the difference stays with the sender; it is never taken from the sender's own holdings)
+	vrf.Assert(env.W.BalOf(alice, atom).GTE(w.aAtom), "C04: a routed exact-out swap takes nothing from the sender's own balance of the intermediate denom")
+	vrf.Assert(env.W.BalOf(alice, usdt).Equal(aUsdt), "C04: sender's output-denom balance untouched (separate recipient)")
+	vrf.Assert(env.W.BalOf(bob, atom).Equal(w.bAtom), "C04: recipient receives nothing of the intermediate denom")
+	vrf.Assert(env.W.BalOf(bob, usdc).Equal(w.bUsdc), "C04: recipient's input-denom balance untouched")
+}
+
+// One queued exact-in request routed over two pools (uusdc -> uatom -> uusdt), sender and recipient distinct.
+//
+//vrf:summary (*github.com/elys-network/elys/x/amm/types.Pool).SwapOutAmtGivenIn => sumSwapOut
+//vrf:summary (github.com/elys-network/elys/x/tier/keeper.Keeper).GetMembershipTier => sumTier
+//vrf:summary (github.com/elys-network/elys/x/amm/keeper.Keeper).GetStackedSlippage => sumStacked
+//vrf:cover applied not-applied
+//vrf:bound 1 queued exact-in request, 2-hop route over two constant-product pools, separate recipient; execution prices havocked; balances, input and minimum symbolic
+//vrf:max-steps 60000000
+func H_EndBlocker_One_ExactIn_TwoHops() {
+	w := setup()
+	addPool2(w)
+	env, ctx := w.env, w.env.Ctx
+	aUsdt, bUsdt := vrf.Int("aliceUsdt"), vrf.Int("bobUsdt")
+	vrf.Assume(!aUsdt.IsNegative())
+	vrf.Assume(!bUsdt.IsNegative())
+	env.W.SetBal(alice, usdt, aUsdt)
+	env.W.SetBal(bob, usdt, bUsdt)
+	in, min := vrf.Int("in"), vrf.Int("min")
+	vrf.Assume(in.IsPositive())
+	vrf.Assume(!min.IsNegative())
+	m := &ammtypes.MsgSwapExactAmountIn{Sender: alice.String(), Recipient: bob.String(),
+		Routes:  []ammtypes.SwapAmountInRoute{{PoolId: 1, TokenOutDenom: atom}, {PoolId: 2, TokenOutDenom: usdt}},
+		TokenIn: sdk.Coin{Denom: usdc, Amount: in}, TokenOutMinAmount: min}
+	env.Amm.SetSwapExactAmountInRequests(ctx, m, 1)
+	env.Amm.SetLastSwapRequestIndex(ctx, 1)
+
+	env.Amm.EndBlocker(ctx)
+
+	vrf.Assert(len(env.Amm.GetAllSwapExactAmountInRequests(ctx)) == 0, "C04: no request lingers after EndBlocker")
+	spent := w.aUsdc.Sub(env.W.BalOf(alice, usdc))
+	got := env.W.BalOf(bob, usdt).Sub(bUsdt)
+	vrf.Assert(spent.IsZero() || spent.Equal(in), "C04: sender debited exactly TokenIn or not at all (two hops)")
+	if spent.IsZero() {
+		vrf.Cover("not-applied")
+		vrf.Assert(got.IsZero(), "C04: unapplied request credits nothing")
+	} else {
+		vrf.Cover("applied")
+		vrf.Assert(got.GTE(min), "C04: recipient credited at least TokenOutMin (two hops)")
+	}
+	vrf.Assert(env.W.BalOf(alice, atom).Equal(w.aAtom), "C04: a routed exact-in swap leaves the sender's balance of the intermediate denom as it was")
+	vrf.Assert(env.W.BalOf(alice, usdt).Equal(aUsdt), "C04: sender's output-denom balance untouched (separate recipient)")
+	vrf.Assert(env.W.BalOf(bob, atom).Equal(w.bAtom), "C04: recipient receives nothing of the intermediate denom")
+	vrf.Assert(env.W.BalOf(bob, usdc).Equal(w.bUsdc), "C04: recipient's input-denom balance untouched")
+}
